@@ -87,7 +87,7 @@ PROPS = {
         "assumptions": [STUBS, "grammar oracle parse_datagram enumerates the finitely many layouts of the fixed-size kit format"],
         "harnesses": [
             H("c07_send_pb_12", cost=60), H("c07_send_pb_13", cost=60), H("c07_send_pb_17", cost=75), H("c07_send_pb_22", cost=130), H("c07_send_feed_17", cost=80),
-            H("c07_send_bare_10", cost=25), H("c07_send_bcast_15", cost=25), H("d_ping", cost=80),
+            H("c07_send_bare_10", cost=25), H("c07_send_bcast_15", cost=25), H("d_ping", cost=80), H("e4_message_gates_smt", engine="smt", group="gates", cost=80, entry="Message::{needs_piggyback, allow_custom_broadcasts, piggyback_only_active} (MIR -> SMT-LIB2, z3 + cvc5)", bounds="all 11 message kinds; 6 queries x 2 solvers"),
             H("c07_send_pb_9", tier=T), H("c07_send_pb_10", tier=T), H("c07_send_pb_16", tier=T), H("c07_send_pb_21", tier=T),
             H("c07_send_pb_27", tier=T, cost=200), H("c07_send_pb_32", tier=T, cost=300), H("c07_send_feed_12", tier=T), H("c07_send_feed_22", tier=T, cost=200),
             H("c07_send_feed_32", tier=T, cost=300), H("c07_send_feed_failing", tier=T, cost=600, timeout_t=3000), H("c07_send_bare_32", tier=T),
@@ -165,7 +165,7 @@ PROPS = {
         "harnesses": [
             H("bc_fill_2_a", cost=290, timeout_q=900, **BC), H("bc_add_keyed", cost=120, **BC), H("bc_budget_two_rounds", cost=100, **BC),
             H("c07_send_pb_17", cost=75), H("a_apply1_k1", cost=120), H("c01_idempotent", cost=130),
-            H("c15_key_same_addr", cost=60, entry="Foca::handle_apply_summary x3 on the real backlog (no stubs)"), H("c15_key_diff_addr", cost=60), H("c15_key_returning", cost=60), H("bc_fill_1", cost=80, **BC),
+            H("c15_key_same_addr", cost=60, entry="Foca::handle_apply_summary x3 on the real backlog (no stubs)"), H("c15_key_diff_addr", cost=60), H("c15_key_returning", cost=60), H("bc_fill_1", cost=80, **BC), H("e4_message_gates_smt", engine="smt", group="gates", cost=80, entry="Message::{needs_piggyback, allow_custom_broadcasts, piggyback_only_active} (MIR -> SMT-LIB2, z3 + cvc5)", bounds="all 11 message kinds; 6 queries x 2 solvers"),
             H("t_gossip_idle", tier=T), H("bc_fill_2_b", tier=T, cost=300, **BC), H("bc_fill_3_a", tier=T, cost=900, timeout_t=3000, **BC), H("bc_fill_3_b", tier=T, cost=900, timeout_t=3000, **BC),
             H("bc_fill_3_c", tier=T, cost=900, timeout_t=3000, **BC), H("bc_fill_real_buffer", tier=T, **BC), H("t_gossip", tier=T, cost=200), H("c07_send_pb_22", tier=T, cost=130),
             H("c07_send_feed_17", tier=T), H("c07_send_bare_10", tier=T), H("a_gossip", tier=T, cost=90), H("t_probe_k2", tier=T),
@@ -178,7 +178,7 @@ PROPS = {
         "outside": "items > 6 bytes, > 2 pending items, 64 KiB length truncation", "assumptions": [STUBS],
         "harnesses": [
             H("bc_invalidate", cost=200, timeout_q=900, **BC), H("bc_fill_prefix_2", cost=300, timeout_q=900, **BC), H("c16_add_broadcast", cost=40), H("c16_broadcast_one", cost=120),
-            H("d_gossip_custom", cost=65), H("c07_send_bcast_15", cost=25), H("c16_broadcast_drain", cost=60, entry="Foca::broadcast on the real backlog (no stubs)"),
+            H("d_gossip_custom", cost=65), H("c07_send_bcast_15", cost=25), H("c16_broadcast_drain", cost=60, entry="Foca::broadcast on the real backlog (no stubs)"), H("e4_message_gates_smt", engine="smt", group="gates", cost=80, entry="Message::{needs_piggyback, allow_custom_broadcasts, piggyback_only_active} (MIR -> SMT-LIB2, z3 + cvc5)", bounds="all 11 message kinds; 6 queries x 2 solvers"),
             H("bc_fill_prefix_1", tier=T, **BC), H("bc_fill_prefix_3", tier=T, cost=900, timeout_t=3000, **BC), H("c16_broadcast_empty", tier=T), H("d_broadcast_custom", tier=T),
             H("c07_send_pb_17", tier=T), H("c07_send_pb_22", tier=T, cost=130), H("c07_send_bcast_32", tier=T), H("c07_send_bare_10", tier=T),
         ],
